@@ -33,6 +33,9 @@ func (lpr *listBinaryPropertyReader) Read(in io.Reader) (err error) {
 	if err != nil {
 		return err
 	}
+	if lpr.lastReadListSize < 0 {
+		return fmt.Errorf("list property count does not fit a signed 32 bit integer: %d", uint32(lpr.lastReadListSize))
+	}
 
 	payloadSize := int(lpr.lastReadListSize) * lpr.property.ListType.Size()
 	if len(lpr.buf) < payloadSize {
